@@ -127,6 +127,67 @@ theorem bin_result_kind (b : BinOp) (s r : KS α κ) (o : Operand α κ) (h : bi
   have := h1.adm (by rw [h2.1]; exact ht) k v hm
   rw [h2.1] at this; exact this
 
+/-- **Second generation.** A set obtained as the result of `| & - ^` from ANY reachable state of a parameterised
+set, and then driven by any further operation sequence (adds, `|=`, further rebinding …), keeps the type
+parameters of the original set and still holds only items / keys that pass the ORIGINAL type checks:
+results of operators never "forget" `T` and `K`. -/
+theorem typed_second_generation (s r : KS α κ) (ops ops' : List (Op α κ)) (b : BinOp) (o : Operand α κ)
+    (hi : Inv s) (ht : s.cfg.typed = true) (h : binOp b (run s ops).1 o = .ok r) :
+    (run r ops').1.cfg = s.cfg ∧
+      ∀ k v, (k, v) ∈ (run r ops').1.dict → s.cfg.okItem v = true ∧ s.cfg.okKey k = true := by
+  obtain ⟨h1, h2⟩ := inv_run ops hi
+  obtain ⟨h3, h4⟩ := inv_binOp h
+  obtain ⟨h5, h6⟩ := inv_run ops' h3
+  have hc : (run r ops').1.cfg = s.cfg := (h6.1.trans h4.1).trans h2.1
+  refine ⟨hc, ?_⟩
+  intro k v hm
+  have := h5.adm (by rw [hc]; exact ht) k v hm
+  rw [hc] at this; exact this
+
+/-- `validateAll` succeeds exactly when every element validates. -/
+theorem validateAll_ok_iff (c : Cfg α κ) (xs : List α) :
+    validateAll c xs = .ok () ↔ ∀ x ∈ xs, ∃ k, validate c x = .ok k := by
+  induction xs with
+  | nil => simp [validateAll]
+  | cons x xs ih =>
+    simp only [validateAll, List.mem_cons, forall_eq_or_imp]
+    cases hv : validate c x with
+    | error e => simp
+    | ok k => simp [ih]
+
+/-- **The parameterised constructor is decided by the survivors.** `KeyedSet[T, K](xs, …)` succeeds exactly
+when the unparameterised constructor does (every element keyed; with `enforce` no two unequal elements under one
+key) and every item that is IN the constructed mapping (the last one per key) passes the item and key checks; an
+ill-typed element that a later element of the same key replaced is never part of the set. The constructed set is
+the unparameterised one with the type parameters attached. -/
+theorem construct_typed_survivors (c : Cfg α κ) (enforce : Bool) (xs : List α) (s : KS α κ)
+    (ht : c.typed = true) :
+    construct c enforce xs = .ok s ↔
+      ∃ s0, construct { c with typed := false } enforce xs = .ok s0 ∧ s = { s0 with cfg := c } ∧
+        ∀ x ∈ s0.iter, ∃ k, validate c x = .ok k := by
+  unfold construct
+  cases hf : filterAdd (fun _ => .ok true) (⟨{ c with typed := false }, enforce, []⟩ : KS α κ) xs with
+  | error e => simp
+  | ok s1 =>
+    simp only [ht, if_true]
+    have hiter : ({ s1 with cfg := c } : KS α κ).iter = s1.iter := rfl
+    constructor
+    · intro h
+      cases hva : validateAll c ({ s1 with cfg := c } : KS α κ).iter with
+      | error e => simp [hva] at h
+      | ok u =>
+        simp only [hva] at h
+        refine ⟨{ s1 with cfg := { c with typed := false } }, by simp, ?_, ?_⟩
+        · cases h; rfl
+        · have := (validateAll_ok_iff c _).1 (by cases u; exact hva)
+          simpa [KS.iter] using this
+    · rintro ⟨s0, h0, hs, hall⟩
+      simp at h0
+      subst h0
+      have : validateAll c ({ s1 with cfg := c } : KS α κ).iter = .ok () :=
+        (validateAll_ok_iff c _).2 (by simpa [KS.iter] using hall)
+      simp [this, hs]
+
 /-- reflected operators with a built-in set / list on the left run the receiver's
 method: same statement. With a KeyedSet `t` on the left the result is of `t`'s kind. -/
 theorem rbin_result_kind (b : BinOp) (s r : KS α κ) (o : Operand α κ) (h : rbinOp b s o = .ok r) :
@@ -1004,6 +1065,19 @@ example : (binOp .or exS (.ks exT)).toOption.map (fun r => (r.enforce, r.cfg.typ
 example : (match add exS (1, 6) with | .error e => some e | .ok _ => none) = some Err.valueError := by decide
 example : (match add exS (4, 100) with | .error e => some e | .ok _ => none) = some Err.typeError := by decide
 example : (match add exS (11, 0) with | .error e => some e | .ok _ => none) = some Err.typeError := by decide
+-- second generation (`typed_second_generation` is not vacuous): the result of `exS | exT` refuses an ill-typed item and an
+-- ill-typed key, through `add` and through `|=`
+example : ((binOp .or exS (.ks exT)).toOption.map fun r =>
+    ((run r [.add (4, 100), .add (11, 0), .inplace .ior (.pylist [(5, 1), (6, 100)])]).1.keys,
+     (run r [.add (4, 100)]).2.map fun o => match o with | .err e => some e | _ => none)) =
+    some ([1, 2, 3, 5], [some Err.typeError]) := by decide
+-- the parameterised constructor is decided by the survivors (`construct_typed_survivors`): an ill-typed item replaced by a
+-- later well-typed one of the same key is not in the set; one that survives makes the construction fail
+example : (construct (exCfg true) false [(1, 100), (1, 5)]).toOption.map (·.dict) = some [(1, (1, 5))] := by decide
+example : (match construct (exCfg true) false [(1, 5), (1, 100)] with | .error e => some e | .ok _ => none)
+    = some Err.typeError := by decide
+example : (match construct (exCfg true) false [(1, 5), (11, 0)] with | .error e => some e | .ok _ => none)
+    = some Err.typeError := by decide
 
 /-- the documented ambiguity: ints keyed by `x / 10`, every int usable as a key -/
 def ambCfg : Cfg Nat Nat :=
